@@ -63,6 +63,13 @@ func (e *Enc) checkPost(f *frame, rs retSite) {
 		goal := e.safeEvalBool(c, env)
 		e.oblige("post", fmt.Sprintf("ensures%d/%s", k+1, retTag), rs.pos, goal, c.Props, c.Text)
 	}
+	for k, c := range e.fc.Claims {
+		goal := e.safeEvalBool(c, env)
+		n0 := len(e.lines)
+		e.oblige("post", fmt.Sprintf("claims%d/%s", k+1, retTag), rs.pos, goal, c.Props, c.Text)
+		// a claim may be a known finding: it is never assumed afterwards
+		e.lines = e.lines[:n0]
+	}
 	// frame obligations are generated at stores; nothing more here.
 }
 
